@@ -13,14 +13,14 @@ from vf.common import coverage_from_stats, explore_parallel, run_unit
 from vf.values import show
 
 PID = "C12"
-STEPS = ["ret_assign", "ret_update", "raise_after_set", "ow_set", "plain", "batch", "ping", "reconnect"]
+STEPS = ["ret_assign", "ret_update", "raise_after_set", "ow_set", "plain", "batch", "ping", "reconnect", "ow_reset", "raw_refused"]
 
 
 def make_run(cfg):
     from vf import sched as S
     from vf.schedworld import SchedWorld
     from vf import targets
-    from Pyro5 import client, errors, protocol, server
+    from Pyro5 import client, errors, protocol, server, socketutil
     from Pyro5.callcontext import current_context
     scripts = cfg["scripts"]
 
@@ -55,6 +55,7 @@ def make_run(cfg):
             client_view = {}
             order = {}
             nocorr_requests = set()
+            client_addrs = {}      # client index -> local addresses of the connections it used
 
             def make_client(ci, script):
                 def body():
@@ -83,11 +84,35 @@ def make_run(cfg):
                             if nocorr:
                                 nocorr_requests.add(reqi)
                             tag = "c%d-%d" % (ci, n)
+                            if p._pyroConnection is None:
+                                wait_for_free_worker()      # this step is going to connect
                             try:
                                 if step == "reconnect":
                                     p._pyroRelease()
                                     wait_for_free_worker()
                                     p._pyroBind()
+                                    r = ("ok", None)
+                                elif step == "ow_reset":
+                                    # a oneway request, and the connection is aborted (RST) before the daemon gets to read it
+                                    p._pyroBind()
+                                    p.ow_set(tag)
+                                    p._pyroConnection.sock.do_reset()
+                                    p._pyroConnection = None
+                                    r = ("ok", None)
+                                elif step == "raw_refused":
+                                    # a peer whose first message is not a connect request: refused with CONNECTFAIL
+                                    wait_for_free_worker()
+                                    rs = w.net.create_socket(connect=("h", 1))
+                                    rc = socketutil.SocketConnection(rs)
+                                    try:
+                                        rs.sendall(bytes(protocol.SendingMessage(protocol.MSG_PING, 0, 1, 42, b"ping").data))
+                                        rs.settimeout(3.0)
+                                        try:
+                                            protocol.recv_stub(rc)
+                                        except errors.CommunicationError:
+                                            pass
+                                    finally:
+                                        rc.close()
                                     r = ("ok", None)
                                 elif step == "ping":
                                     p._pyroBind()
@@ -104,6 +129,8 @@ def make_run(cfg):
                                 r = ("exc", x.args)
                             except errors.CommunicationError as x:
                                 r = ("comm", repr(x))
+                            if p._pyroConnection is not None:
+                                client_addrs.setdefault(ci, set()).add(tuple(p._pyroConnection.sock.addr))
                             ra = {k: bytes(v) for k, v in (current_context.response_annotations or {}).items()}
                             obs.append((step, tag, r, ra, p._pyroConnection.sock.fd if p._pyroConnection else None))
                         p._pyroRelease()
@@ -144,6 +171,8 @@ def make_run(cfg):
                 late = rec["kind"].endswith("-late")
                 k = rec["kind"].replace("-late", "")
                 where = ("oneway-thread" if k == "ow_set" else "method") + ("|after-yield" if late else "")
+                if rec["addr"] is not None and tuple(rec["addr"]) not in client_addrs.get(ci, set()):
+                    V("context-of-other-request|peer-address|%s|%s" % (srv, where), "method %s(%s) saw peer address %r, its caller used %r" % (k, tag, rec["addr"], sorted(client_addrs.get(ci, ()))))
                 if rec["reqi"] != want_reqi:
                     V("context-of-other-request|annotations|%s|%s" % (srv, where), "method %s(%s) saw request annotation %r" % (k, tag, rec["reqi"]))
                 if want_reqi in nocorr_requests:
@@ -197,7 +226,7 @@ def make_run(cfg):
                     step, tag, r, ra, fd = o
                     if r[0] == "comm":
                         V("call-failed-with-communication-error|%s" % step, "%r" % (r,))
-                    if step in ("ping", "reconnect"):
+                    if step in ("ping", "reconnect", "ow_reset", "raw_refused"):
                         continue      # not calls: the client-side clause is about what is observed after each call
                     for k, v in ra.items():
                         if k.startswith("RSP") and not v.startswith(tag.encode()):
@@ -221,9 +250,9 @@ def task(unit):
 
 def configs(quick):
     out = []
-    calls = ["ret_assign", "ret_update", "raise_after_set", "ow_set", "plain", "batch", "ping"]
+    calls = ["ret_assign", "ret_update", "raise_after_set", "ow_set", "plain", "batch", "ping", "ow_reset", "raw_refused"]
     # (a) two concurrently connected clients, one call each + a follow-up
-    pairs = list(itertools.product(["ret_assign", "ret_update", "raise_after_set", "ow_set"], ["plain", "ret_assign", "ping", "reconnect", "batch", "ow_set"]))
+    pairs = list(itertools.product(["ret_assign", "ret_update", "raise_after_set", "ow_set"], ["plain", "ret_assign", "ping", "reconnect", "batch", "ow_set", "ow_reset", "raw_refused"]))
     for a, b in pairs:
         for server, pool in (("multiplex", 4), ("thread", 4)):
             if quick and server == "thread" and (a, b) not in (("ow_set", "plain"), ("raise_after_set", "plain"), ("ret_assign", "ret_assign"), ("ow_set", "ow_set")):
@@ -231,7 +260,7 @@ def configs(quick):
             out.append({"server": server, "pool": pool, "scripts": [[a, "plain"], [b, "plain"]], "p": 1 if quick else 2, "r": 1 if quick else 3, "horizon": 4000})
     # (b) successive connections served by the same thread: multiplex, or a thread pool of one worker
     for a in ["ret_assign", "ret_update", "raise_after_set", "ow_set", "batch"]:
-        for b in ["plain", "ping", "ret_update", "reconnect"]:
+        for b in ["plain", "ping", "ret_update", "reconnect", "ow_reset", "raw_refused"]:
             for server, pool in (("multiplex", 4), ("thread", 1)):
                 out.append({"server": server, "pool": pool, "sequential": True, "scripts": [[a], [b, "plain"]], "p": 1, "r": 1 if quick else 2, "horizon": 4000})
     # (c) one client, histories of length 3 (calls and reconnects on one connection)
@@ -254,7 +283,7 @@ def run(ctx):
     cov = coverage_from_stats(
         stats,
         rule="call scripts of 1-3 clients over {call returning with a response annotation set by assignment / by in-place update, call raising after setting one, oneway call "
-             "setting one, plain call, batch, ping, reconnect} on the multiplex server (one thread serves all clients) and the thread-pool server (several workers, and one "
+             "setting one, plain call, batch, ping, reconnect, oneway call whose connection is reset before it is read, raw peer whose first message is refused} on the multiplex server (one thread serves all clients) and the thread-pool server (several workers, and one "
              "worker reused by successive connections), under all interleavings within the budget including scheduling points inside the method bodies and the oneway thread; "
              "oracle: the context recorded inside every method (request annotations, correlation id, sequence number, flags, serializer, connection and peer) is that of its own "
              "request, also after a yield and inside the oneway thread; every RESULT on the wire carries only annotations set by the request it answers; CONNECTOK, CONNECTFAIL "
